@@ -143,7 +143,8 @@ where
 {
     let Some((x, y)) = two::<St>() else { return };
     let (x, mut y) = (core::mem::ManuallyDrop::new(x), core::mem::ManuallyDrop::new(y));
-    // a request that fits whatever the filler was: u8
+    // "when memory is available": the twins are compared only in states where one more byte fits
+    kani::assume(x.stats().remaining() >= 1);
     let v: u8 = kani::any();
     let bx = x.alloc(v);
     let by = y.try_alloc(v);
